@@ -327,7 +327,7 @@ def gen_block(g, depth):
     r = g.r
     kinds = ['var', 'var', 'var', 'call', 'probe', 'lit']
     if depth > 0:
-        kinds += ['cond', 'cond', 'unless', 'in', 'in', 'with', 'let', 'try', 'try', 'tryfin', 'raise', 'ret']
+        kinds += ['cond', 'cond', 'unless', 'in', 'in', 'inx', 'with', 'let', 'try', 'try', 'tryfin', 'raise', 'ret']
     k = r.choice(kinds)
     if k == 'lit':
         return ['lit', r.choice(['lit', '!', ' '])]
@@ -363,6 +363,8 @@ def gen_block(g, depth):
                                                 'pf_index', 'sequence-odd', 'p', 'k'])], False, 'M', None])
         els = gen_blocks(g, depth - 1, 1) if r.random() < 0.3 else None
         return ['in', ['n', r.choice(['seq', 'seq2', 'seq', 'x'])] if r.random() < 0.8 else gen_src(g), opts, body, els]
+    if k == 'inx':
+        return gen_inx(g, depth)
     if k == 'with':
         mapping = r.random() < 0.25
         only = r.random() < 0.2
@@ -397,6 +399,60 @@ def gen_block(g, depth):
     if k == 'ret':
         return ['ret', gen_src(g)]
     raise ValueError(k)
+
+
+BATCH_VARS = ['sequence-item', 'sequence-index', 'sequence-number', 'sequence-start', 'sequence-end', 'sequence-length',
+              'previous-sequence', 'next-sequence', 'previous-sequence-start-index', 'previous-sequence-end-index',
+              'previous-sequence-size', 'next-sequence-start-index', 'next-sequence-end-index', 'next-sequence-size',
+              'previous-sequence-start-number', 'next-sequence-start-number', 'previous-sequence-end-number',
+              'next-sequence-end-number', 'sequence-step-size', 'sequence-step-start', 'sequence-step-end',
+              'sequence-step-start-index', 'sequence-step-end-index', 'sequence-step-orphan', 'sequence-step-overlap',
+              'pf_index', 'pf_start', 'pf_end', 'pf_step_size', 'pf_step_end', 'pf_previous-sequence', 'pf_next-sequence',
+              'pf_next-sequence-start-index', 'sequence-var-k', 'first-k', 'last-k', 'k', 'p']
+
+
+def gen_inx(g, depth):
+    """dtml-in with sort / reverse / batch options (the model's `inx_`): sorted loops only over sequences whose sort keys
+    are comparable (ints, callables returning ints, at most one None)"""
+    r = g.r
+    x = {}
+    c = r.random()
+    seqname = r.choice(['seq3', 'seq3', 'mseq', 'seq', 'seq2'])
+    opts = {}
+    if seqname == 'mseq':
+        opts['mapping'] = True
+    if seqname in ('seq3', 'mseq', 'seq2') and r.random() < 0.5:
+        x['sort'] = 'k'
+    if r.random() < 0.35:
+        x['reverse'] = True
+    if r.random() < 0.65 or not x:
+        b = {}
+        for name, vals in (('start', [0, 0, 1, 2, 3, 5]), ('size', [0, 1, 2, 3, 3]), ('end', [0, 0, 0, 2, 4]),
+                           ('orphan', [0, 0, 0, 1, 2]), ('overlap', [0, 0, 1, 2])):
+            v = r.choice(vals)
+            if v:
+                b[name] = v
+        if not any(n in b for n in ('start', 'size', 'end')):
+            b['size'] = r.choice([1, 2, 3])
+        m = r.random()
+        if m < 0.12:
+            b['previous'] = True
+        elif m < 0.24:
+            b['next'] = True
+        x['batch'] = b
+    if r.random() < 0.15:
+        opts['noPush'] = True
+    if r.random() < 0.3:
+        opts['prefix'] = 'pf'
+    body = gen_blocks(g, depth - 1, 2)
+    for _ in range(r.randint(1, 3)):
+        body.append(['lit', '|'])
+        body.append(['var', ['n', r.choice(BATCH_VARS)], False, 'M', None])
+    els = gen_blocks(g, depth - 1, 1) if r.random() < 0.3 else None
+    src = ['n', seqname]
+    if r.random() < 0.15 and seqname != 'seq':
+        src = ['e', ['name', seqname]]
+    return ['inx', src, opts, x, body, els]
 
 
 # --------------------------------------------------------------------------- printing (dtml syntax)
@@ -452,6 +508,32 @@ def print_block(b):
         if els is not None:
             out += '<dtml-else>' + print_blocks(els)
         return out + '</dtml-in>'
+    if k == 'inx':
+        _, s, o, x, body, els = b
+        a = [src_attr(s)]
+        if o.get('mapping'):
+            a.append('mapping')
+        if o.get('noPush'):
+            a.append('no_push_item')
+        if o.get('prefix'):
+            a.append('prefix=%s' % o['prefix'])
+        if o.get('skip'):
+            a.append('skip_unauthorized')
+        if x.get('sort'):
+            a.append('sort=%s' % x['sort'])
+        if x.get('reverse'):
+            a.append('reverse')
+        bt = x.get('batch') or {}
+        for n in ('start', 'end', 'size', 'orphan', 'overlap'):
+            if n in bt:
+                a.append('%s=%d' % (n, bt[n]))
+        for n in ('previous', 'next'):
+            if bt.get(n):
+                a.append(n)
+        out = '<dtml-in %s>%s' % (' '.join(a), print_blocks(body))
+        if els is not None:
+            out += '<dtml-else>' + print_blocks(els)
+        return out + '</dtml-in>'
     if k == 'with':
         _, s, mapping, only, body = b
         a = [src_attr(s)] + (['mapping'] if mapping else []) + (['only'] if only else [])
@@ -500,6 +582,18 @@ def gen_case(r, depth=3, robust=False):
     ns['seq'] = {'l': [g.item_val() for _ in range(r.randint(0, 4))]}
     ns['seq2'] = {'l': [g.v_obj({'p': g.simple_val(), 'k': r.choice([1, 1, 2])}) for _ in range(r.randint(0, 3))]}
     ns['m1'] = {'d': [[n, g.simple_val()] for n in ['p', 'x', 'zz']]}
+    # sequences with comparable sort keys `k` (ints, callables returning ints, at most one None / missing)
+    def keyval(i, none_at):
+        if i == none_at:
+            return None
+        if r.random() < 0.2:
+            return g.v_fn(r.choice([0, 1, 2, 3]))
+        return r.choice([0, 1, 1, 2, 3, 5])
+    n3 = r.randint(0, 7)
+    none_at = r.randrange(n3) if n3 and r.random() < 0.3 else -1
+    ns['seq3'] = {'l': [g.v_obj({'k': keyval(i, none_at), 'p': g.simple_val()}) for i in range(n3)]}
+    nm = r.randint(0, 6)
+    ns['mseq'] = {'l': [{'d': [['k', r.choice([0, 1, 1, 2, 4])], ['p', g.simple_val()]]} for _ in range(nm)]}
     ns['cls1'] = {'x': r.choice(['E2', 'E3', 'EM', 'KeyError']), 'm': ''}
     ns['cls2'] = {'x': r.choice(['E1', 'ValueError']), 'm': ''}
     ns['probe'] = {'f': PROBE_BASE, 'r': None}
